@@ -1,4 +1,5 @@
-import AmVerif.Gen.Tables
+import AmVerif.Gen.TabCond
+import AmVerif.Gen.TabCast
 import AmVerif.Gen.Rid
 /-!
 # The cache as a sequential state machine
